@@ -865,6 +865,102 @@ def _check_from_list_order(run, repo, world):
                len(loops) == 1 and _over_locations(loops[0].iter),
                "%s must assemble the bytes in cls.locations order" % m,
                where(mod, fn), trivial=True)
+    # ... and what the decoders are handed is a bytes object: MASK / TMASK
+    # are recognised by `raw == cls.mask` (bytes), strings by bytes methods
+    from ..cfg import CFG, reaching_defs, defs_reaching, explicit_raise_only
+
+    def bytes_expr(fnx, cfg, rd, node, e, depth=0):
+        """True when `e`, evaluated at `node`, can only be a bytes object."""
+        if depth > 6:
+            return False
+        if isinstance(e, ast.Constant):
+            return isinstance(e.value, bytes)
+        if isinstance(e, ast.Call):
+            t = unparse(e.func)
+            if t in ("bytes", "bytearray"):
+                return True
+            if isinstance(e.func, ast.Attribute) and e.func.attr in (
+                    "to_bytes", "encode", "join") and (
+                        e.func.attr != "join" or bytes_expr(
+                            fnx, cfg, rd, node, e.func.value, depth + 1)):
+                return True
+            return False
+        if isinstance(e, (ast.YieldFrom, ast.Await)):
+            c = e.value
+            if isinstance(c, ast.Call) and isinstance(
+                    c.func, ast.Attribute) and c.func.attr == "read_raw":
+                return True        # checked on read_raw itself, below
+            return False
+        if isinstance(e, ast.IfExp):
+            return bytes_expr(fnx, cfg, rd, node, e.body, depth + 1) and \
+                bytes_expr(fnx, cfg, rd, node, e.orelse, depth + 1)
+        if isinstance(e, ast.BinOp) and isinstance(e.op, ast.Add):
+            return bytes_expr(fnx, cfg, rd, node, e.left, depth + 1) and \
+                bytes_expr(fnx, cfg, rd, node, e.right, depth + 1)
+        if isinstance(e, ast.Subscript) and isinstance(e.slice, ast.Slice):
+            return bytes_expr(fnx, cfg, rd, node, e.value, depth + 1)
+        if isinstance(e, ast.Name):
+            ds = defs_reaching(rd, node, e.id)
+            if not ds:
+                return False
+            for d in ds:
+                dn = cfg.nodes[d]
+                a = dn.ast
+                if dn.kind == "stmt" and isinstance(a, ast.Assign) and len(
+                        a.targets) == 1 and isinstance(
+                            a.targets[0], ast.Name):
+                    if not bytes_expr(fnx, cfg, rd, dn, a.value, depth + 1):
+                        return False
+                else:
+                    return False
+            return True
+        return False
+    n_sites = 0
+    for m in ("read", "from_list", "read_raw"):
+        if m not in mv.methods:
+            raise AnalysisError("MemoryValue.%s is gone" % m)
+        fnx = normalise(mv.methods[m][1], world, LOC, mv, primitives=(
+            "read_raw", "read", "from_list", "check_raw", "raw_to_value",
+            "is_valid"), aliases=False)
+        cfg = CFG(fnx, may_raise=explicit_raise_only,
+                  name="MemoryValue." + m)
+        rd = reaching_defs(cfg, [a.arg for a in fnx.args.args])
+        for n in cfg.reachable:
+            if n.ast is None or n.kind not in ("stmt", "test"):
+                continue
+            if m == "read_raw":
+                if isinstance(n.ast, ast.Return):
+                    n_sites += 1
+                    run.ob("R-DECODE", "%s.MemoryValue.read_raw#returns-bytes"
+                           % LOC, n.ast.value is not None and bytes_expr(
+                               fnx, cfg, rd, n, n.ast.value),
+                           "read_raw returns `%s`, which is not (only) a "
+                           "bytes object: `raw == cls.mask` is then never "
+                           "true and MASK / TMASK decode as numbers" % (
+                               unparse(n.ast.value) if n.ast.value
+                               is not None else None), where(mod, n))
+                continue
+            for c in paths_calls(n.ast):
+                if not (isinstance(c.func, ast.Attribute) and c.func.attr in (
+                        "check_raw", "raw_to_value") and len(c.args) == 1):
+                    continue
+                n_sites += 1
+                run.ob("R-DECODE", "%s.MemoryValue.%s#%s-gets-bytes" % (
+                    LOC, m, c.func.attr),
+                       bytes_expr(fnx, cfg, rd, n, c.args[0]),
+                       "%s is handed `%s`, which is not (only) a bytes "
+                       "object on some path: `raw == cls.mask` compares a "
+                       "list with bytes and is never true, so MASK / TMASK "
+                       "are decoded as numbers; bytes methods such as "
+                       "split() are missing" % (c.func.attr,
+                                                unparse(c.args[0])),
+                       where(mod, n))
+    run.floor("decoder hand-over sites (bytes)", n_sites, 5)
+
+
+def paths_calls(stmt):
+    from ..cfg import _walk_no_nested
+    return [x for x in _walk_no_nested(stmt) if isinstance(x, ast.Call)]
 
 
 def _check_registration_guards(run, repo, world):
